@@ -210,5 +210,315 @@ enum class ScopedBool : bool { a };
 using Lambda    = decltype([] { });
 using LambdaCap = decltype([x = 0] { return x; });
 
+// ---------------------------------------------------------------------------------------
+// round 2: types that were missing from the zoo
+// ---------------------------------------------------------------------------------------
+// enumerations: fixed underlying type bool / char / char16_t, negative enumerators, no enumerators, opaque
+enum UnscopedBool : bool { ub0 };
+enum UnscopedChar : char { uc0 };
+enum UnscopedNeg { un_lo = -5, un_hi = 5 };
+enum UnscopedBig : unsigned long long { ubig = ~0ULL };
+enum UnscopedEmpty { };
+enum class ScopedNeg : signed char { lo = -128 };
+enum class ScopedC16 : char16_t { a };
+enum class ScopedU64 : unsigned long { a };
+enum class Opaque : short;
+
+// class hierarchies: protected base, ambiguous (repeated) base, virtual diamond, two bases with members
+struct DerivedProt : protected Base { };
+struct Left : Base { };
+struct Right : Base { };
+struct Diamond : Left, Right { };
+struct VLeft : virtual Base { };
+struct VRight : virtual Base { };
+struct VDiamond : VLeft, VRight { };
+struct TwoBases : Base, Agg { };
+struct EmptyBaseMember : Empty {
+    int x;
+};
+struct EmptySameFirst : Empty { // base of the type of the first member: not standard layout
+    Empty e;
+    int x;
+};
+struct FinalVDtor final {
+    virtual ~FinalVDtor();
+};
+
+// layout / object representation
+struct alignas(32) Over {
+    char c;
+};
+struct TailPad {
+    int i;
+    char c;
+};
+struct BitFull {
+    unsigned a : 16;
+    unsigned b : 16;
+};
+struct ArrMember {
+    int a[3];
+};
+struct WithBool {
+    bool b;
+};
+struct WithPtr {
+    int* p;
+};
+struct WithLongDouble {
+    long double ld;
+};
+struct AggNSDMI {
+    int a = 1;
+};
+struct AggOfNonTrivial {
+    NonTrivial n;
+    int i;
+};
+
+// constructors: conditionally explicit, templated, constrained, protected, private copy, non-const / volatile copy
+template <typename T>
+struct CondExplicit {
+    explicit(sizeof(T) != sizeof(int)) CondExplicit(T) noexcept;
+};
+struct FromAny {
+    template <typename T>
+    FromAny(T&&);
+};
+struct FromArith {
+    template <typename T>
+        requires requires(T t) { t * 2; }
+    FromArith(T) noexcept;
+};
+struct FromTwoInts {
+    FromTwoInts(int, int) noexcept;
+};
+struct ExplicitFromTwo {
+    explicit ExplicitFromTwo(int, double);
+};
+struct FromInitPtr {
+    FromInitPtr(int const*, int const*);
+};
+struct DefaultedAll {
+    DefaultedAll()                               = default;
+    DefaultedAll(DefaultedAll const&)            = default;
+    DefaultedAll& operator=(DefaultedAll const&) = default;
+    ~DefaultedAll()                              = default;
+};
+struct ProtectedCtor {
+protected:
+    ProtectedCtor();
+};
+struct PrivateCopy {
+    PrivateCopy();
+
+private:
+    PrivateCopy(PrivateCopy const&);
+    PrivateCopy& operator=(PrivateCopy const&);
+};
+struct NonConstCopy {
+    NonConstCopy();
+    NonConstCopy(NonConstCopy&);
+    NonConstCopy& operator=(NonConstCopy&);
+};
+struct VolatileCopy {
+    VolatileCopy();
+    VolatileCopy(VolatileCopy const volatile&);
+    VolatileCopy& operator=(VolatileCopy const volatile&);
+    void operator=(VolatileCopy const volatile&) volatile;
+};
+struct DeletedMoveAssign {
+    DeletedMoveAssign(DeletedMoveAssign const&)            = default;
+    DeletedMoveAssign(DeletedMoveAssign&&)                 = default;
+    DeletedMoveAssign& operator=(DeletedMoveAssign const&) = default;
+    DeletedMoveAssign& operator=(DeletedMoveAssign&&)      = delete;
+};
+
+// assignment: ref-qualified, from another type, through a const proxy
+struct RefQualAssign {
+    RefQualAssign& operator=(RefQualAssign const&) & = default;
+};
+struct AssignFromInt {
+    AssignFromInt& operator=(int) noexcept;
+};
+struct ConstAssign {
+    ConstAssign const& operator=(ConstAssign const&) const noexcept;
+};
+struct AssignReturnsVoid {
+    void operator=(AssignReturnsVoid const&);
+};
+
+// destructors
+struct DtorNoexceptExpr {
+    ~DtorNoexceptExpr() noexcept(sizeof(int) == 1);
+};
+struct ThrowDtorMember {
+    ThrowDtor m;
+};
+struct ThrowDtorBase : ThrowDtor { };
+struct DeletedDtorMember { // implicitly deleted destructor
+    DeletedDtor m;
+};
+struct VirtualPrivateDtor {
+private:
+    virtual ~VirtualPrivateDtor();
+};
+
+// conversion functions: only non-const, only rvalue, only lvalue, to a reference, to a function pointer, templated
+struct ToIntNonConst {
+    operator int();
+};
+struct ToIntRvalue {
+    operator int() &&;
+};
+struct ToIntLvalue {
+    operator int() &;
+};
+struct ToIntRef {
+    operator int&() const noexcept;
+};
+struct ToBasePtr {
+    operator Base*() const;
+};
+struct ToFnPtr {
+    using fp = int (*)(int);
+    operator fp() const;
+};
+struct ToAny {
+    template <typename T>
+    operator T() const;
+};
+struct ToAggRef {
+    operator Agg&() const;
+};
+struct ExplicitToInt {
+    explicit operator int() const noexcept;
+};
+struct ToCopyOnlyCRef { // converts to a const lvalue of a class whose move constructor is deleted
+    operator CopyOnly const&() const;
+};
+struct AmbiguousToNumber {
+    operator int() const;
+    operator long() const;
+};
+
+// comparison
+struct EqNonBool {
+    struct R { };
+    R operator==(EqNonBool const&) const;
+};
+struct EqNonConst {
+    bool operator==(EqNonConst const&);
+};
+struct EqExplicitBool {
+    struct B {
+        explicit operator bool() const;
+    };
+    B operator==(EqExplicitBool const&) const;
+};
+struct EqWithInt {
+    friend bool operator==(EqWithInt const&, EqWithInt const&);
+    friend bool operator==(EqWithInt const&, int);
+};
+struct EqDeleted {
+    friend bool operator==(EqDeleted const&, EqDeleted const&) = delete;
+};
+struct BoolLikeNoNot { // converts to bool, but !x is deleted: not boolean-testable
+    operator bool() const;
+    void operator!() const = delete;
+};
+
+// call operators
+struct GenericFunctor {
+    template <typename... A>
+    int operator()(A&&...) const;
+};
+struct RefQualFunctor {
+    int operator()() &;
+    double operator()() const&;
+    char operator()() &&;
+};
+struct MutableFunctor {
+    int operator()(int);
+};
+struct DeletedCall {
+    void operator()(int) = delete;
+    void operator()(double);
+};
+struct OverloadFunctor {
+    int operator()(int) const;
+    void* operator()(void*) const;
+};
+struct VariadicFunctor {
+    int operator()(...) const;
+};
+struct DefaultArgFunctor {
+    int operator()(int, int = 0) const;
+};
+struct ReturnsImmovable {
+    Immovable operator()() const;
+};
+struct ReturnsRef {
+    int& operator()() const noexcept;
+};
+struct ReturnsBoolLike {
+    ToInt operator()(int, int) const;
+};
+struct TakesRef {
+    void operator()(int&) const;
+};
+struct TakesRvalueRef {
+    void operator()(MoveOnly&&) const;
+};
+struct TakesMoveOnly {
+    bool operator()(MoveOnly) const;
+};
+struct PrivateCall {
+private:
+    void operator()() const;
+};
+
+// swap customisation
+struct MemberSwapOnly {
+    MemberSwapOnly(MemberSwapOnly&&) = delete;
+    void swap(MemberSwapOnly&);
+};
+struct ThrowingAdlSwap {
+    friend void swap(ThrowingAdlSwap&, ThrowingAdlSwap&) noexcept(false);
+};
+struct SwapWithInt {
+    friend void swap(SwapWithInt&, int&) noexcept;
+    friend void swap(int&, SwapWithInt&) noexcept;
+};
+struct OverloadedAddr {
+    void operator&() const = delete;
+    int v;
+};
+
+// unions
+union UnionDeleted { // every special member implicitly deleted
+    NonTrivial n;
+    int i;
+};
+union UnionWithCtor {
+    int i;
+    float f;
+    UnionWithCtor(int) noexcept;
+};
+union UnionConstMember {
+    int const c;
+    float f;
+};
+union UnionOfArrays {
+    char c[8];
+    double d;
+};
+
+// closure types
+using LambdaGeneric  = decltype([](auto x) { return x; });
+using LambdaMutable  = decltype([i = 0]() mutable { return ++i; });
+using LambdaNoexcept = decltype([](int) noexcept { return true; });
+using LambdaRefRet   = decltype([](int& r) -> int& { return r; });
+
 } // namespace zoo
 
